@@ -27,8 +27,8 @@ func init() {
 			"(b) even indices: arithmetic sweep, 1500 splits per case straight through the module's message server on fresh continuous vesting accounts: original vesting 1..10^30, all time positions, amounts {1..5, locked, locked-1, random}, and hostile families (dyadic/short time fractions giving .5 ties, originals >= 2*10^18 of both parities, amounts u with u*OV = -j mod vesting). " +
 			"Non-trivial: (a) >=3 successful splits incl. a chain of depth>=2; (b) >=50 hostile-family splits executed. Distinct by history / sweep seed.",
 		Assumptions:   []string{"SDK ContinuousVestingAccount.LockedCoins is the schedule function (its 18-decimal time scalar is part of the documented behaviour)", "later-time slack derived in DESIGN.md C07"},
-		Cases:         func(t string) int { return tierN(t, 96, 6000) },
-		MinNontrivial: func(t string) int { return tierN(t, 30, 2000) },
+		Cases:         func(t string) int { return tierN(t, 192, 6000) },
+		MinNontrivial: func(t string) int { return tierN(t, 60, 2000) },
 		Run:           runC07,
 	})
 }
